@@ -88,6 +88,10 @@ def rt_harnesses(update_now=False, only=None):
                 srs = [None]
                 if cfile in ("wav.c", "w64.c", "rf64.c") and not any(x in tag for x in ("ulaw", "alaw")):
                     srs = [1, 44100, 2147483647] if (ch == 1 and nfix == 1) else [44100]
+                # HTK refuses a write open with a rate below 1 (fix 02afbb6): with a symbolic rate the open outcome is symbolic and the
+                # handle's function pointers stop being constants (R5) -> rate on the grid here too
+                if cfile == "htk.c":
+                    srs = [1, 8000, 10000000] if (ch == 1 and nfix == 1) else [8000]
                 for sr in srs:
                     d = {"CONTAINER_FILE": '"%s"' % cfile, "OPEN_FN": openfn, "FMT": fmt, "CH": ch, "N_MIN": nfix, "N_MAX": nfix,
                          "N_FIXED": nfix, "PADFRAMES": pad, "MF_CAP": cap, "MF_MAXIO": cap, "MF_ABSTRACT": 1, "SNP_MAX": 40,
@@ -112,7 +116,7 @@ def rt_harnesses(update_now=False, only=None):
                                  include_env=("log_stub", "memfile", "memset_model", "snprintf_model", "libm_model"),
                                  timeout=1500 if tag.split(".")[0] in HEAVY else 240,
                                  tiers=() if tag.split(".")[0] in DROPPED else ("thorough",) if (tag.split(".")[0] in HEAVY or not ((ch == 1 and nfix in (0, 1, 1000)) or (ch in (2, 1024) and nfix == 1))
-                                                         or (sr not in (None, 44100) and tag != "wav.pcm16")) else ("quick", "thorough"),
+                                                         or (sr not in (None, 44100, 8000) and tag != "wav.pcm16")) else ("quick", "thorough"),
                                  kf=["aiffrate", "vocupd"], probe_for=("aiffrate" if "probe_aiffrate" in tag else "vocupd" if "probe_vocupd" in tag else None),
                                  functions=[openfn, cfile + " header writer/reader/close", "psf_binheader_writef", "psf_binheader_readf", "codec init"],
                                  bounds="N = %d frames (grid), sample rate %s, stale SF_INFO.frames any 64-bit value" % (
